@@ -5,12 +5,14 @@
 
 using namespace vp;
 
-enum { OP_ADD, OP_SUB, OP_MUL, OP_ADD_A, OP_SUB_A, OP_MUL_A, OP_NEG, OP_PREINC, OP_POSTINC, OP_PREDEC, OP_POSTDEC, OP_META, OP_COUNT };
+enum { OP_ADD, OP_SUB, OP_MUL, OP_ADD_A, OP_SUB_A, OP_MUL_A, OP_NEG, OP_PREINC, OP_POSTINC, OP_PREDEC, OP_POSTDEC, OP_META, OP_SELF, OP_CHAIN, OP_COUNT };
 static const VpOp OPS[] = {
     {"add", {VK_INT, VK_INT_REL}, {}, 1}, {"sub", {VK_INT, VK_INT_REL}, {}, 1}, {"mul", {VK_INT, VK_INT_REL}, {}, 2},
     {"add_assign", {VK_INT, VK_INT_REL}, {}, 1}, {"sub_assign", {VK_INT, VK_INT_REL}, {}, 1}, {"mul_assign", {VK_INT, VK_INT_REL}, {}, 1},
     {"neg", {VK_INT}, {}, 1}, {"preinc", {VK_INT}, {}, 1}, {"postinc", {VK_INT}, {}, 1}, {"predec", {VK_INT}, {}, 1}, {"postdec", {VK_INT}, {}, 1},
     {"metamorphic", {VK_INT, VK_INT_REL}, {SK_AMT}, 1},
+    // usage forms: the same object on both sides (x += x, x -= x, x *= x, x = x + x ...), and the reference a compound assignment returns used as an lvalue ((x -= y) -= z ...)
+    {"self_aliased_compound", {VK_INT}, {SK_SMALL}, 1}, {"chained_compound", {VK_INT, VK_INT_REL, VK_INT}, {SK_SMALL}, 1},
 };
 enum { CL_OVERFLOW, CL_SUBLANE_CARRY, CL_MIN, CL_ZERO, CL_ORDINARY };
 static const char* const CLASSES[] = {"result_wraps", "carry_across_sublane", "operand_is_MIN", "operand_is_zero", "ordinary"};
@@ -104,14 +106,50 @@ template<class V> static void run(const VpCase* c, VpOutcome* o) {
         if (!cmp_lanes(o, W, y, x, nullptr, "meta:neg_is_zero_minus", "-a == 0-a")) return;
         return;
     }
+    if (op == OP_SELF) {
+        const unsigned k = (unsigned)(c->s[0] < 0 ? -c->s[0] : c->s[0]) % 6;
+        const unsigned base = k % 3 == 0 ? OP_ADD : k % 3 == 1 ? OP_SUB : OP_MUL;
+        for (unsigned i = 0; i < W; ++i) { exp[i] = ref<T>(base, c->v[0][i], c->v[0][i]); classify<T>(base, c->v[0][i], c->v[0][i], o); }
+        V x = a;
+        switch (k) { case 0: x += x; break; case 1: x -= x; break; case 2: x *= x; break; case 3: x = x + x; break; case 4: x = x - x; break; default: x = x * x; break; }
+        rd<V>(x, got);
+        static const char* const nm[6] = {"x += x", "x -= x", "x *= x", "x = x + x", "x = x - x", "x = x * x"};
+        char tag[96]; std::snprintf(tag, sizeof tag, "self_aliased:%s", nm[k]);
+        cmp_lanes(o, W, exp, got, nullptr, tag, nm[k]);
+        return;
+    }
+    if (op == OP_CHAIN) {
+        // (x op1= y) op2= z must leave x = (x op1 y) op2 z: the first operator returns a reference to x
+        const unsigned k = (unsigned)(c->s[0] < 0 ? -c->s[0] : c->s[0]) % 12;
+        const unsigned o1 = k % 3, o2 = (k / 3) % 4;       // o2 == 3: ++ / -- applied to the returned reference
+        V cz = mk<V>(c->v[2]);
+        for (unsigned i = 0; i < W; ++i) {
+            const uint64_t t1 = ref<T>(OP_ADD + o1, c->v[0][i], c->v[1][i]);
+            exp[i] = o2 < 3 ? ref<T>(OP_ADD + o2, t1, c->v[2][i]) : ref<T>(o1 == 1 ? OP_PREDEC : OP_PREINC, t1, 0);
+            classify<T>(OP_ADD + o1, c->v[0][i], c->v[1][i], o);
+        }
+        V x = a;
+#define VP_FIRST(x, y) (o1 == 0 ? (x += y) : o1 == 1 ? (x -= y) : (x *= y))
+        switch (o2) {
+        case 0: if (o1 == 0) (x += b) += cz; else if (o1 == 1) (x -= b) += cz; else (x *= b) += cz; break;
+        case 1: if (o1 == 0) (x += b) -= cz; else if (o1 == 1) (x -= b) -= cz; else (x *= b) -= cz; break;
+        case 2: if (o1 == 0) (x += b) *= cz; else if (o1 == 1) (x -= b) *= cz; else (x *= b) *= cz; break;
+        default: if (o1 == 0) ++(x += b); else if (o1 == 1) --(x -= b); else ++(x *= b); break;
+        }
+#undef VP_FIRST
+        rd<V>(x, got);
+        char tag[96]; std::snprintf(tag, sizeof tag, "chained:%c=_then_%s", "+-*"[o1], o2 == 0 ? "+=" : o2 == 1 ? "-=" : o2 == 2 ? "*=" : "inc_dec");
+        cmp_lanes(o, W, exp, got, nullptr, tag, "(x op= y) op= z");
+        return;
+    }
     for (unsigned i = 0; i < W; ++i) { exp[i] = ref<T>(op, c->v[0][i], c->v[1][i]); classify<T>(op, c->v[0][i], c->v[1][i], o); }
     switch (op) {
     case OP_ADD: rd<V>(a + b, got); break;
     case OP_SUB: rd<V>(a - b, got); break;
     case OP_MUL: rd<V>(a * b, got); break;
-    case OP_ADD_A: { V r = a; V& rr = (r += b); rd<V>(r, got); rd<V>(rr, got2); two = true; for (unsigned i = 0; i < W; ++i) exp2[i] = exp[i]; break; }
-    case OP_SUB_A: { V r = a; V& rr = (r -= b); rd<V>(r, got); rd<V>(rr, got2); two = true; for (unsigned i = 0; i < W; ++i) exp2[i] = exp[i]; break; }
-    case OP_MUL_A: { V r = a; V& rr = (r *= b); rd<V>(r, got); rd<V>(rr, got2); two = true; for (unsigned i = 0; i < W; ++i) exp2[i] = exp[i]; break; }
+    case OP_ADD_A: { V r = a; auto&& rr = (r += b); rd<V>(r, got); rd<V>(rr, got2); two = true; for (unsigned i = 0; i < W; ++i) exp2[i] = exp[i]; break; }
+    case OP_SUB_A: { V r = a; auto&& rr = (r -= b); rd<V>(r, got); rd<V>(rr, got2); two = true; for (unsigned i = 0; i < W; ++i) exp2[i] = exp[i]; break; }
+    case OP_MUL_A: { V r = a; auto&& rr = (r *= b); rd<V>(r, got); rd<V>(rr, got2); two = true; for (unsigned i = 0; i < W; ++i) exp2[i] = exp[i]; break; }
     case OP_NEG: { SV r = -a; rd<SV>(r, got); break; }
     case OP_PREINC: { V r = a; V q = ++r; rd<V>(r, got); rd<V>(q, got2); two = true; for (unsigned i = 0; i < W; ++i) exp2[i] = exp[i]; break; }
     case OP_POSTINC: { V r = a; V q = r++; rd<V>(r, got); rd<V>(q, got2); two = true; for (unsigned i = 0; i < W; ++i) exp2[i] = c->v[0][i] & m; break; }
@@ -143,6 +181,18 @@ extern "C" void vp_enum(int tier, uint64_t seed, uint32_t shard, uint32_t nshard
         std::vector<uint64_t> L = vpl::int_lattice_small(B);
         if (B == 8) { L.clear(); for (unsigned x = 0; x < 256; ++x) L.push_back(x); }
         const size_t n = L.size();
+        if ((job++ % nshards) == shard) {
+            // usage forms over the lattice: every self-aliased form, every chain
+            VpCase c; std::memset(&c, 0, sizeof c); c.target = t;
+            for (unsigned k = 0; k < 12; ++k) {
+                size_t fill = 0; uint64_t rot = seed + k;
+                for (size_t i = 0; i < n; i += (B == 8 ? 1 : 1)) {
+                    unsigned lane = (unsigned)((fill + rot) % W);
+                    c.v[0][lane] = L[i]; c.v[1][lane] = L[(i * 7 + k + 3) % n]; c.v[2][lane] = L[(i * 13 + k * 5 + 1) % n];
+                    if (++fill == W || i + 1 == n) { c.s[0] = k; c.op = OP_CHAIN; emit(&c, ctx); if (k < 6) { c.op = OP_SELF; emit(&c, ctx); } fill = 0; ++rot; }
+                }
+            }
+        }
         for (unsigned op = 0; op < OP_META; ++op) {
             if ((job++ % nshards) != shard) continue;
             VpCase c; std::memset(&c, 0, sizeof c); c.target = t; c.op = op;
